@@ -1,12 +1,13 @@
-(* C12 lemmas about Model/Closure.v: without PRQL-bodied functions the number of arguments that reaches
-   unpack::<N> is N; with them it is not (materialize_function cuts the parameter list of the inner closure). *)
+(* C12 lemmas about Model/Closure.v: the number of arguments that reaches unpack::<N> is N, for every term whose
+   built-in functions have the parameter counts of their declarations -- lambdas included, since commit 9639161
+   (materialize_function no longer cuts the parameter list of a built-in). *)
 From Coq Require Import List NArith Arith Bool Lia.
 From PV Require Import Lib.ListX Model.Closure.
 Import ListNotations.
 
 Section Proofs.
   Variable arity : str -> option nat.
-  Notation lf := (lambda_free arity).
+  Notation lf := (well_declared arity).
 
   Definition good (rec : expr -> res) : Prop :=
     forall e, lf e = true -> (forall id g, rec e <> BadCast id g) /\ (forall r, rec e = Ok r -> lf r = true).
@@ -33,7 +34,7 @@ Section Proofs.
     match b with
     | Internal id => match arity id with Some n => Nat.eqb (named + np) n | None => true end
     | StdOp => true
-    | Body _ => false
+    | Body b' => lf b'
     end.
 
   Lemma forallb_repeat_val n : forallb lf (repeat Val n) = true.
@@ -47,7 +48,8 @@ Section Proofs.
     intros G Ha Hb. unfold fold_fn.
     destruct (np <? length args) eqn:E1; [split; discriminate|].
     destruct (length args <? np) eqn:E2.
-    - split; [discriminate|]. intros r E. injection E as <-. cbn [lambda_free]. rewrite Ha. exact Hb.
+    - split; [discriminate|]. intros r E. injection E as <-. cbn [well_declared]. rewrite Ha.
+      destruct body; exact Hb.
     - apply Nat.ltb_ge in E1. apply Nat.ltb_ge in E2.
       assert (Hl : forallb lf (args ++ repeat Val named) = true) by (rewrite forallb_app, Ha, forallb_repeat_val; reflexivity).
       destruct (fold_list_good rec G _ Hl) as [Fb Fo].
@@ -59,7 +61,15 @@ Section Proofs.
              apply Nat.eqb_eq in H. rewrite H. split; [discriminate|]. intros r E. injection E as <-. reflexivity.
           -- split; [discriminate|]. intros r E. injection E as <-. reflexivity.
         * split; [discriminate|]. intros r E. injection E as <-. reflexivity.
-        * discriminate.
+        * (* materialize_function *)
+          destruct (G b Hb) as [Bb Bo]. destruct (rec b) as [r| | |i g|] eqn:Er; try (split; discriminate).
+          -- specialize (Bo r eq_refl). destruct r as [|n' np' a' b'|c' g']; try (split; [discriminate|]; intros r E; injection E as <-; exact Bo).
+             cbn [well_declared] in Bo. apply andb_true_iff in Bo as [Ba Bb'].
+             destruct b' as [id'| |b''].
+             ++ split; [discriminate|]. intros r E. injection E as <-. cbn [well_declared]. rewrite Ba. exact Bb'.
+             ++ split; [discriminate|]. intros r E. injection E as <-. cbn [well_declared]. rewrite Ba. reflexivity.
+             ++ split; [discriminate|]. intros r E. injection E as <-. cbn [well_declared forallb]. rewrite Ba. exact Bb'.
+          -- exfalso. exact (Bb i g eq_refl).
       + split; [|intros r E; subst e; exfalso].
         * intros id g E. subst e. exact (Fb id g eq_refl).
         * (* an Ok out of fold_list's error branch cannot happen *)
@@ -73,11 +83,11 @@ Section Proofs.
     induction fuel as [|k IH]; intros e He; cbn [fold]; [split; discriminate|].
     destruct e as [|named np args body|c given].
     - split; [discriminate|]. intros r E. injection E as <-. reflexivity.
-    - cbn [lambda_free] in He. apply andb_true_iff in He as [Ha Hb]. apply fold_fn_good; assumption.
-    - cbn [lambda_free] in He. apply andb_true_iff in He as [Hc Hg]. destruct (IH c Hc) as [Cb Co].
+    - cbn [well_declared] in He. apply andb_true_iff in He as [Ha Hb]. apply fold_fn_good; try assumption; destruct body; exact Hb.
+    - cbn [well_declared] in He. apply andb_true_iff in He as [Hc Hg]. destruct (IH c Hc) as [Cb Co].
       destruct (fold arity k c) as [r| | |i g|] eqn:E; try (split; discriminate).
       + specialize (Co r eq_refl). destruct r as [|named np args body|c' g']; try (split; discriminate).
-        cbn [lambda_free] in Co. apply andb_true_iff in Co as [Ha Hb].
+        cbn [well_declared] in Co. apply andb_true_iff in Co as [Ha Hb].
         apply fold_fn_good; [exact IH| |].
         * rewrite !forallb_app, Ha, forallb_repeat_val, Hg. reflexivity.
         * destruct body as [id| |b]; cbn [body_ok] in *; try assumption.
@@ -85,7 +95,7 @@ Section Proofs.
       + exfalso. exact (Cb i g eq_refl).
   Qed.
 
-  (* without PRQL-bodied functions no application, however curried, reaches unpack with a wrong number of arguments *)
-  Theorem lambda_free_no_bad_cast fuel e : lf e = true -> forall id g, fold arity fuel e <> BadCast id g.
+  (* no application, however curried or wrapped in lambdas, reaches unpack with a wrong number of arguments *)
+  Theorem well_declared_no_bad_cast fuel e : lf e = true -> forall id g, fold arity fuel e <> BadCast id g.
   Proof. intro H. exact (proj1 (fold_good fuel e H)). Qed.
 End Proofs.
